@@ -807,6 +807,17 @@ class Runner(object):
                 else:
                     self.raise_("builtins.TypeError", e)
             return V({"bool"} if q.split(".")[-1].startswith(("is", "exists")) else {"str"})
+        if q in ("os.path.realpath", "os.path.getsize", "os.path.getmtime", "os.path.samefile", "os.stat", "os.lstat", "os.listdir", "os.path.islink", "os.readlink"):
+            # these consult the file system with the text as given: a NUL character in it is a ValueError
+            # ("embedded null byte"), unlike os.path.exists / isfile / isdir, which swallow it
+            if a0 is not None and not a0.kinds <= {"str", "bytes"}:
+                if "any" in a0.kinds:
+                    self.may_raise(["builtins.TypeError"], e)
+                else:
+                    self.raise_("builtins.TypeError", e)
+            excs = ["builtins.ValueError"] + ([] if q in ("os.path.realpath", "os.path.islink") else ["builtins.OSError"])
+            self.may_raise(excs, e)
+            return V({"str"} if q in ("os.path.realpath", "os.readlink") else {"any"})
         if q == "os.path.join":
             for x in A:
                 if not x.kinds <= {"str", "bytes"}:
